@@ -1502,7 +1502,7 @@ def run_c06(ctx, rng, job):
 def _components_chain(ctx, rng, w):
     """The same through Components.__bases__ (utilities and adapters registries)."""
     from zope.interface.registry import Components
-    comps, mirror = [], []
+    comps, mirror, mybases = [], [], []
     for i in range(rng.randint(2, 4)):
         idx = rng.sample(range(len(comps)), min(len(comps), rng.choice([0, 1, 1, 2])))
         try:
@@ -1511,21 +1511,40 @@ def _components_chain(ctx, rng, w):
             idx = idx[:1]
             pc = type('PC%d' % i, tuple(mirror[j] for j in idx) or (object,), {})
         mirror.append(pc)
-        comps.append(Components('c%d' % i, tuple(comps[j] for j in idx)))
+        bs = tuple(comps[j] for j in idx)
+        mybases.append(list(bs))        # the harness's own record of the chain (not read back from the library)
+        r_ = rng.random()
+        if r_ < 0.15:
+            bs = iter(bs)            # the constructor takes any iterable, also one that can be walked only once
+            ctx.count('components_bases_given_as_one_shot_iterable')
+        elif r_ < 0.3:
+            bs = list(bs)
+        comps.append(Components('c%d' % i, bs))
     P = w.P[0]
-    utils = {}
+    RQ = w.R[0]
+    utils, adaps = {}, {}
+
+    class Adaptee:
+        pass
+    classImplements(Adaptee, RQ)
+    adaptee = Adaptee()
     for i, c in enumerate(comps):
         if rng.random() < 0.8:
             u = object()
             utils[i] = u
             c.registerUtility(u, P, 'u', event=False)
+        if rng.random() < 0.8:
+            tag = ('adapter-of', i)
+            adaps[i] = tag
+            c.registerAdapter(lambda ob, tag=tag: tag, (RQ,), P, 'a', event=False)
 
-    def expect(i):
-        order = util.c3(comps[i], lambda c: c.__bases__)
+    def expect(i, table=None):
+        table = utils if table is None else table
+        order = util.c3(comps[i], lambda c: mybases[[j for j, x in enumerate(comps) if x is c][0]])
         for c in order:
             k = [j for j, x in enumerate(comps) if x is c][0]
-            if k in utils:
-                return utils[k]
+            if k in table:
+                return table[k]
         return None
 
     for step in range(rng.randint(1, 4)):
@@ -1536,6 +1555,12 @@ def _components_chain(ctx, rng, w):
             if got is not expect(i):
                 ctx.violation('components-chain-wrong', {'components': i, 'bases': [[comps.index(b) for b in x.__bases__] for x in comps]},
                               mechanism=None)
+            # the adapter registries follow the same chain
+            ctx.ev()
+            got = c.queryAdapter(adaptee, P, 'a')
+            if got != expect(i, adaps):
+                ctx.violation('components-chain-wrong', {'components': i, 'what': 'adapters', 'got': repr(got), 'expected': repr(expect(i, adaps)),
+                                                         'bases': [[comps.index(b) for b in x.__bases__] for x in comps]})
         i = rng.randrange(1, len(comps))
         idx = rng.sample(range(i), min(i, rng.choice([0, 1, 1, 2])))
         try:
@@ -1544,10 +1569,11 @@ def _components_chain(ctx, rng, w):
             continue
         ctx.op('components_bases', i, idx)
         comps[i].__bases__ = tuple(comps[j] for j in idx)
+        mybases[i] = [comps[j] for j in idx]
         ctx.count('components_rebasings')
     for i, c in enumerate(comps):
-        ctx.ev()
-        if c.queryUtility(P, 'u') is not expect(i):
+        ctx.ev(2)
+        if c.queryUtility(P, 'u') is not expect(i) or c.queryAdapter(adaptee, P, 'a') != expect(i, adaps):
             ctx.violation('components-chain-wrong', {'components': i, 'bases': [[comps.index(b) for b in x.__bases__] for x in comps]})
 
 
